@@ -473,6 +473,16 @@ func recoversAndCalls(fn *ssa.Function) (recovers, callsParam bool) {
 			}
 		}
 	}
+	// a deferred function or method that calls recover itself
+	for _, b := range fn.Blocks {
+		for _, in := range b.Instrs {
+			if d, ok := in.(*ssa.Defer); ok {
+				if df := d.Call.StaticCallee(); df != nil && callsRecover(df, 0) {
+					recovers = true
+				}
+			}
+		}
+	}
 	for _, c := range callsIn(fn) {
 		if p, ok := c.Common().Value.(*ssa.Parameter); ok && p.Parent() == fn {
 			callsParam = true
